@@ -728,6 +728,8 @@ def eval_tree(e, env):
             return not v
         if e["op"] == "-":
             return -v
+        if e["op"] == "~" and isinstance(v, int):
+            return ~v & 0xFFFFFFFFFFFFFFFF
         raise Unknown(t)
     if k == "call" and e.get("op") == "!":
         sub = e.get("recv") if e.get("recv") is not None else e["args"][0]
